@@ -17,6 +17,49 @@ func zzH_lcp() {
 		ok = verifAnd(ok, a[i] == b[i])
 		want += verifB2I(ok)
 	}
-	verifReach("lcp-done")
-	verifAssert(got == want, "lcp differs from reference")
+	verifReach("end")
+	verifAssert(got == want, "lcp differs from reference [C01,C12,C19]")
+}
+
+// zzH_lcs: lcs(a,b) == length of the longest common suffix.
+func zzH_lcs() {
+	n := verifParam("n")
+	la := verifChoose("la", n+1)
+	lb := verifChoose("lb", n+1)
+	a := verifBytes("a", la)
+	b := verifBytes("b", lb)
+	got := lcs(a, b)
+	ok := true
+	want := 0
+	for i := 1; i <= la && i <= lb; i++ {
+		ok = verifAnd(ok, a[la-i] == b[lb-i])
+		want += verifB2I(ok)
+	}
+	verifReach("end")
+	verifAssert(got == want, "lcs differs from reference [C19]")
+}
+
+// zzH_getLE64: getLE64(p) == little-endian value of the first min(8,len) bytes.
+func zzH_getLE64() {
+	n := verifChoose("n", 11)
+	p := verifBytesCap("p", n, n+verifChoose("cx", 3))
+	got := getLE64(p)
+	var want uint64
+	for i := 0; i < n && i < 8; i++ {
+		want |= uint64(p[i]) << (8 * uint(i))
+	}
+	verifReach("end")
+	verifAssert(got == want, "getLE64 differs from reference [C01,C19]")
+}
+
+// zzH_xzcost: XZCost is non-decreasing in the offset for a fixed match length
+// (so the nearest occurrence is the cheapest one, which OSAP's edge closure relies on).
+func zzH_xzcost() {
+	m := verifU32("m")
+	o1 := verifU32("o1")
+	o2 := verifU32("o2")
+	verifAssume(m >= 2)
+	verifAssume(1 <= o1 && o1 <= o2)
+	verifReach("end")
+	verifAssert(XZCost(m, o1) <= XZCost(m, o2), "XZCost decreases with a larger offset [C11]")
 }
